@@ -37,6 +37,7 @@ static EXIT_EVENTS: std::sync::Mutex<Vec<String>> = std::sync::Mutex::new(Vec::n
 /// two rounding operations: "default() always returns the mode last set by the same thread" - also then.
 struct ExitProbe {
     path: std::cell::RefCell<String>,
+    base: u64,
 }
 
 impl Drop for ExitProbe {
@@ -47,11 +48,11 @@ impl Drop for ExitProbe {
         }
         let m = RoundingMode::default();
         let g = GSEQ.fetch_add(1, Ordering::SeqCst);
-        let mut evs = vec![format!("{} 1000000 {} get {}", path, g, mode_name(m))];
+        let mut evs = vec![format!("{} {} {} get {}", path, self.base, g, mode_name(m))];
         for (i, r) in ["round D25:1 0", "divr vv D-1:0 D3:0 2"].iter().enumerate() {
             let resp = run_line(r);
             let g = GSEQ.fetch_add(1, Ordering::SeqCst);
-            evs.push(format!("{} {} {} op exit {} {}", path, 1000001 + i, g, i, resp));
+            evs.push(format!("{} {} {} op exit {} {}", path, self.base + 1 + i as u64, g, i, resp));
         }
         if let Ok(mut v) = EXIT_EVENTS.lock() {
             v.extend(evs);
@@ -60,7 +61,10 @@ impl Drop for ExitProbe {
 }
 
 thread_local! {
-    static EXIT_PROBE: ExitProbe = ExitProbe { path: std::cell::RefCell::new(String::new()) };
+    static EXIT_PROBE: ExitProbe = ExitProbe { path: std::cell::RefCell::new(String::new()), base: 1_000_000 };
+    // a second probe that is armed only at the END of the thread's script, i.e. registered after whatever
+    // thread-locals the library created: its destructor runs in the other order relative to them
+    static EXIT_PROBE_LATE: ExitProbe = ExitProbe { path: std::cell::RefCell::new(String::new()), base: 2_000_000 };
 }
 
 fn run_script(spec: Arc<Spec>, sid: String, path: String) -> Vec<String> {
@@ -126,6 +130,8 @@ fn run_script(spec: Arc<Spec>, sid: String, path: String) -> Vec<String> {
         all.extend(c.join().expect("child panicked"));
     }
     all.extend(events);
+    // arm the late probe (first touched now, after the library's own thread-locals)
+    EXIT_PROBE_LATE.with(|p| *p.path.borrow_mut() = path.clone());
     all
 }
 
